@@ -72,8 +72,13 @@ type extension struct {
 	Data []byte
 }
 
+// Marshal returns the ClientHello as one or more handshake records.
 func (c *clientHello) Marshal() ([]byte, error) {
-	return c.marshal(false)
+	m, err := c.marshal(false)
+	if err != nil {
+		return nil, err
+	}
+	return frameHandshakeMessage(c.LegacyVersion, m), nil
 }
 
 func (c *clientHello) marshalAAD() ([]byte, error) {
@@ -81,14 +86,13 @@ func (c *clientHello) marshalAAD() ([]byte, error) {
 	if err != nil {
 		return nil, err
 	}
-	return m[9:], nil
+	return m[4:], nil
 }
 
+// marshal returns the handshake message.
 func (c *clientHello) marshal(aad bool) ([]byte, error) {
 	b := cryptobyte.NewBuilder(nil)
-	b.AddUint8(0x16)
-	b.AddUint16(c.LegacyVersion)
-	b.AddUint16LengthPrefixed(func(b *cryptobyte.Builder) {
+	{
 		b.AddUint8(0x01)
 		b.AddUint24LengthPrefixed(func(b *cryptobyte.Builder) {
 			b.AddUint16(c.LegacyVersion)
@@ -121,7 +125,7 @@ func (c *clientHello) marshal(aad bool) ([]byte, error) {
 				}
 			})
 		})
-	})
+	}
 	return b.Bytes()
 }
 
